@@ -58,3 +58,99 @@ def free_function(rel, name, must=()):
     hdr = X.functional_casts(r, hdr)
     loops = X.find_loops(body)
     return Extracted(name, hdr, body, r, rel, loops)
+
+# ---------------------------------------------------------------------------
+# N-D evaluation cores and drivers (bspline_eval.h / bspline_multi.h)
+
+def rewrite_index(rules, name, text, var, repl_fmt):
+    """R5: `var[E]` -> repl_fmt % E   (first-level subscript of a buffer2d object)"""
+    blank = X.blank_comments_and_strings(text)
+    out = []; i = 0; n = 0
+    pat = re.compile(r"(?<![A-Za-z0-9_.>])%s\s*\[" % re.escape(var))
+    while True:
+        m = pat.search(blank, i)
+        if not m: out.append(text[i:]); break
+        p = m.end() - 1
+        q = X.match_close(blank, p, "[", "]")
+        out.append(text[i:m.start()]); out.append(repl_fmt % text[p + 1:q]); i = q + 1; n += 1
+    rules.counts[name] = rules.counts.get(name, 0) + n
+    return "".join(out)
+
+CORE_PARAMS = "(const int* centers, int maxdegree, Float* localbasis_buf, size_t localbasis_dim1)"
+
+def nchunks_of(orders):
+    r = 1
+    for o in orders[:-1]: r *= (o + 1)
+    return r
+
+def scalar_core(name, D=None, O=None, orders=None, cname=None):
+    """extract one of ndsplineeval_core / _coreD / _coreD_FixedOrder / _core_KnownOrder as C.
+    Template parameters become object-like macros (R2); buffer2d becomes (pointer, row length) (R5)."""
+    s = src(EVAL_H)
+    start, header, body, end = X.find_function(s, r"splinetable<Alloc>::%s\s*\(" % re.escape(name))
+    r = X.Rules(); r.counts["R1_member"] = 1
+    if "detail::buffer2d<Float> localbasis" not in header:
+        raise ExtractionError("%s: buffer2d parameter not found" % name)
+    body = common_rules(r, body)
+    body = rewrite_index(r, "R5_buffer2d_index", body, "localbasis", "(localbasis_buf + localbasis_dim1*(%s))")
+    if r.counts["R5_buffer2d_index"] == 0: raise ExtractionError("%s: R5 did not fire" % name)
+    pre = ""
+    if orders is not None:
+        body = r.sub("R9_sizeof_pack", r"constexpr\s+unsigned\s+int\s+D\s*=\s*sizeof\.\.\.\(Orders\);", "const unsigned int D = %d;" % len(orders), body, must_fire=True)
+        body = r.sub("R9_nchunks", r"constexpr\s+uint32_t\s+nchunks\s*=\s*detail::nchunks<Orders\.\.\.>\(\);", "const uint32_t nchunks = %du;" % nchunks_of(orders), body, must_fire=True)
+        body = r.sub("R9_chunk", r"constexpr\s+uint32_t\s+chunk\s*=\s*detail::chunk<Orders\.\.\.>\(\);", "const uint32_t chunk = %du;" % (orders[-1] + 1), body, must_fire=True)
+    if D is not None: pre += "#define D %du\n" % D
+    if O is not None: pre += "#define O %du\n" % O
+    cname = cname or name
+    text = pre + "double %s%s\n%s\n" % (cname, CORE_PARAMS, body)
+    if D is not None: text += "#undef D\n"
+    if O is not None: text += "#undef O\n"
+    e = Extracted(cname, "double %s%s" % (cname, CORE_PARAMS), body, r, EVAL_H, X.find_loops(body))
+    e.full_text = text
+    return e
+
+NCHUNKS_CHECK = None
+def check_nchunks_templates():
+    """R9 support: the Python re-implementation of detail::nchunks/chunk is only valid while the
+    constexpr templates keep their shape; verify their text."""
+    s = X.strip_comments(src(EVAL_H))
+    a = re.search(r"constexpr unsigned int nchunks\(\)\s*\{\s*return \(O1\+1\)\*nchunks<O2, Orders\.\.\.>\(\);\s*\}", s)
+    b = re.search(r"constexpr unsigned int nchunks\(\)\s*\{\s*return 1u;\s*\}", s)
+    c = re.search(r"constexpr unsigned int chunk\(\)\s*\{\s*return O1\+1;\s*\}", s)
+    d = re.search(r"constexpr unsigned int chunk\(\)\s*\{\s*return chunk<O2, Orders\.\.\.>\(\);\s*\}", s)
+    if not (a and b and c and d): raise ExtractionError("detail::nchunks / detail::chunk templates changed: R9 transcription no longer justified")
+    return True
+
+VP_HELPERS = r'''
+/* R6: *std::max_element(p, p+n) for uint32_t ranges (trusted 5-line transcription) */
+static uint32_t vp_max_u32(const uint32_t* p, uint32_t n){ uint32_t m = p[0]; for (uint32_t i = 1; i < n; i++) if (m < p[i]) m = p[i]; return m; }
+'''
+
+def driver(name, evaluator=False, cname=None, ret="double", params=None, core_call=None):
+    """extract a driver (ndsplineeval, operator(), ndsplineeval_deriv, and their evaluator_type twins)"""
+    s = src(EVAL_H)
+    qual = r"splinetable<Alloc>::evaluator_type<Float>::" if evaluator else r"splinetable<Alloc>::"
+    start, header, body, end = X.find_function(s, qual + re.escape(name) + r"\s*\(")
+    r = X.Rules(); r.counts["R1_member"] = 1
+    body = common_rules(r, body)
+    if evaluator:
+        body = r.sub("R11_table_member", r"\btable\.(?=[a-z_])", "", body, must_fire=True)
+    body = r.sub("R6_max_element", r"\*std::max_element\(order,\s*order\+ndim\)", "vp_max_u32(order, ndim)", body)
+    body = r.sub("R5_buffer2d_decl", r"detail::buffer2d<(Float|float)>\s+localbasis\{localbasis_store,\s*maxdegree\};",
+                 r"\1* localbasis_buf = localbasis_store; size_t localbasis_dim1 = maxdegree;", body)
+    body = rewrite_index(r, "R5_buffer2d_index", body, "localbasis", "(localbasis_buf + localbasis_dim1*(%s))")
+    if evaluator:
+        body = r.sub("R11_member_ptr_call", r"\(table\.\*\(eval_ptr\)\)\(centers,\s*maxdegree,\s*localbasis\)",
+                     "vp_call_core(centers, maxdegree, localbasis_buf, localbasis_dim1)", body)
+        # unqualified member names inside evaluator_type resolve to the evaluator's own members
+        body = r.sub("R11_evaluator_scope", r"(?<![A-Za-z0-9_])ndsplineeval\(", "ev_ndsplineeval(", body)
+    body = r.sub("R5_buffer2d_pass", r"ndsplineeval_core\(centers,\s*maxdegree,\s*localbasis\)", "ndsplineeval_core(centers, maxdegree, localbasis_buf, localbasis_dim1)", body)
+    body = r.sub("R1_address_deref", r"&\s*knots\[n\]\[0\]", "knots[n]", body)
+    p0 = header.index("(") if name != "operator()" else header.index("(", header.index("operator()") + len("operator()"))
+    prm = re.sub(r"\s+", " ", X.strip_comments(header[p0:]))
+    prm = re.sub(r"\)\s*const\s*$", ")", prm)
+    prm = re.sub(r"\s*=\s*0\s*\)", ")", prm)
+    cname = cname or name
+    hdr = "%s %s%s" % (ret, cname, params or prm)
+    e = Extracted(cname, hdr, body, r, EVAL_H, X.find_loops(body))
+    return e
